@@ -272,6 +272,19 @@ class C15(Check):
                     if explore.heap_key([a], [None], lambda v: "?") != before:
                         res["viol"].append({"kind": "remove-empty-mutated-its-argument", "canon": canon,
                                             "msg": ast.unparse(a)[:200]})
+                    if k:
+                        # the same query with non-field annotations on its wrapper nodes (what QMetaData / executors attach):
+                        # annotations are not part of the query - exactly the empty wrappers go, as before
+                        a2 = copy.deepcopy(a)
+                        for n_ in ast.walk(a2):
+                            if isinstance(n_, ast.Call) and isinstance(n_.func, ast.Name) and n_.func.id == "MetaData":
+                                n_._q_metadata = {"note": 1}
+                                n_._func_adl_executor = print
+                        try:
+                            if ast.dump(remove_empty_metadata(a2)) != want_clean:
+                                res["viol"].append({"kind": "remove-empty-result-differs:annotated-nodes", "canon": canon, "msg": ""})
+                        except Exception as e:
+                            res["viol"].append({"kind": f"remove-raised:annotated-nodes:{type(e).__name__}", "canon": canon, "msg": str(e)[:100]})
                     # ---- the caller edits what it was handed (fresh nodes / the dictionaries); the argument is
                     # verified untouched by that, and a second call on the SAME argument must give the right answer again
                     scribble_fresh(cleaned, a)
